@@ -113,7 +113,57 @@ VARIANTS = [
     keep('P-version-sorted-inline', (S, """            versions = sorted(list(versions))
             for v in versions:""", """            for v in sorted(versions):""")),
 
+    keep('P-state-ne-leader', (S, "            if self.__raftState in (_RAFT_STATE.FOLLOWER, _RAFT_STATE.CANDIDATE):\n                lastLogTerm", "            if self.__raftState != _RAFT_STATE.LEADER:\n                lastLogTerm")),
+    keep('P-voters-iterated-as-list', (S, "                for node in self.__otherNodes:\n                    if self.__raftMatchIndex[node] >= commitIdx:", "                for node in list(self.__otherNodes):\n                    if self.__raftMatchIndex[node] >= commitIdx:")),
+    keep('P-lock-helper-extracted',
+         (B, "    @replicated\n    def acquire(self, lockID, clientID, currentTime):", "    def __isExpired(self, lockTime, currentTime):\n        return currentTime - lockTime > self.__autoUnlockTime\n\n    @replicated\n    def acquire(self, lockID, clientID, currentTime):"),
+         (B, "            if currentTime - existingLock[1] > self.__autoUnlockTime:\n                existingLock = None", "            if self.__isExpired(existingLock[1], currentTime):\n                existingLock = None"),
+         (B, "            if currentTime - lockTime > self.__autoUnlockTime:", "            if self.__isExpired(lockTime, currentTime):")),
+    keep('P-handler-elif-chain', (S, "        if message['type'] == 'apply_command':", "        elif message['type'] == 'apply_command':"),
+         (S, "        if message['type'] == 'apply_command_response':", "        elif message['type'] == 'apply_command_response':")),
+    keep('P-idx-term-separate-assignments', (S, "                idx, term = self.__getCurrentLogIndex() + 1, self.__raftCurrentTerm\n\n                if self.__conf.dynamicMembershipChange:", "                idx = self.__getCurrentLogIndex() + 1\n                term = self.__raftCurrentTerm\n\n                if self.__conf.dynamicMembershipChange:")),
+    keep('P-prev-helper-renamed', (S, '__getPrevLogIndexTerm', '__prevOf')),
+    keep('P-serializer-first-flag-local', (SER, "isFirst = transmission['transmitted'] == 0", "isFirst = (transmission['transmitted'] == 0)")),
+    keep('P-eagain-tuple-order', (T, "if e.errno not in (socket.errno.EAGAIN, socket.errno.EWOULDBLOCK):\n                self.disconnect()\n            return False\n\n    def __tryReadBuffer", "if e.errno not in (socket.errno.EWOULDBLOCK, socket.errno.EAGAIN):\n                self.disconnect()\n            return False\n\n    def __tryReadBuffer")),
+    keep('P-fallback-extracted-helper', (S, """            deadline = monotonicTime() - self.__conf.leaderFallbackTimeout
+            count = 1
+            for node in self.__otherNodes:
+                if self.__lastResponseTime[node] > deadline:
+                    count += 1
+            if count <= (len(self.__otherNodes) + 1) / 2:
+                self.__setState(_RAFT_STATE.FOLLOWER)
+                self.__raftLeader = None
+""", """            self.__checkLeaderFallback()
+"""), (S, """    def __applyLogEntries(self):
+        needSendAppendEntries = False
+""", """    def __checkLeaderFallback(self):
+        deadline = monotonicTime() - self.__conf.leaderFallbackTimeout
+        count = 1
+        for node in self.__otherNodes:
+            if self.__lastResponseTime[node] > deadline:
+                count += 1
+        if count <= (len(self.__otherNodes) + 1) / 2:
+            self.__setState(_RAFT_STATE.FOLLOWER)
+            self.__raftLeader = None
+
+    def __applyLogEntries(self):
+        needSendAppendEntries = False
+""")),
+
     # ------------------------------------------------------------------ property-breaking variants
+    brk('B-leader-append-no-plus1', ['C01'], 'R-leader-append-position', (S, "                idx, term = self.__getCurrentLogIndex() + 1, self.__raftCurrentTerm\n\n                if self.__conf.dynamicMembershipChange:", "                idx, term = self.__getCurrentLogIndex(), self.__raftCurrentTerm\n\n                if self.__conf.dynamicMembershipChange:")),
+    brk('B-no-noop-on-election', ['C03'], 'R-leader-append-position', (S, "        self.__raftLog.add(_bchr(_COMMAND_TYPE.NO_OP), idx, term)\n        self.__noopIDx = idx", "        self.__noopIDx = idx")),
+    brk('B-prev-not-adjacent', ['C04'], 'R-sender-prev-adjacent', (S, "        prevIndex = nextNodeIndex - 1\n        entries = self.__getEntries(prevIndex, 1)", "        prevIndex = nextNodeIndex - 2\n        entries = self.__getEntries(prevIndex, 1)")),
+    brk('B-first-flag-after-advance', ['C09'], 'R-transfer-flags', (SER, "        isFirst = transmission['transmitted'] == 0\n        try:", "        try:"), (SER, "        isLast = size == 0", "        isFirst = transmission['transmitted'] == 0\n        isLast = size == 0")),
+    brk('B-reader-loop-le', ['C08'], 'R-record-layout', (J, "        while currentOffset < lastRecordOffset:", "        while currentOffset <= lastRecordOffset:")),
+    brk('B-eagain-disconnects', ['C13'], 'R-write-fifo', (T, "            if e.errno not in (socket.errno.EAGAIN, socket.errno.EWOULDBLOCK):\n                self.disconnect()\n            return False\n\n    def __tryReadBuffer", "            if e.errno in (socket.errno.EAGAIN, socket.errno.EWOULDBLOCK):\n                self.disconnect()\n            return False\n\n    def __tryReadBuffer")),
+    brk('B-vote-refused-shorter-log', ['C05'], 'R-vote-refusal-justified', (S, "                    if lastLogTerm == self.__getCurrentLogTerm() and \\\n                            lastLogIdx < self.__getCurrentLogIndex():\n                        return", "                    if lastLogIdx < self.__getCurrentLogIndex():\n                        return")),
+    brk('B-kwargs-only-dropped', ['C11', 'C15'], 'R-cmd-shapes', (S, "                if kwargs:\n                    cmd = (funcID, args, kwargs)\n                elif args and not kwargs:", "                if args and kwargs:\n                    cmd = (funcID, args, kwargs)\n                elif args:")),
+    brk('B-no-timeout-on-send', ['C14'], 'R-silent-timeout', (T, "    def __trySendBuffer(self):\n        self.__processConnectionTimeout()\n", "    def __trySendBuffer(self):\n")),
+    brk('B-subscription-own-term', ['C02'], 'R-commit-subscription', (S, "                    self.__commandsWaitingCommit[idx].append((term, callback))\n\n        if self.__raftState == _RAFT_STATE.CANDIDATE:", "                    self.__commandsWaitingCommit[idx].append((self.__raftCurrentTerm, callback))\n\n        if self.__raftState == _RAFT_STATE.CANDIDATE:")),
+    brk('B-request-id-reset', ['C02'], 'R-request-id-unique', (S, "        self.__commandsWaitingReply = {}\n\n    def __sendAppendEntries", "        self.__commandsWaitingReply = {}\n        self.__commandsLocalCounter = 0\n\n    def __sendAppendEntries")),
+    brk('B-acquire-early-true', ['C16'], 'R-lock-guards', (B, "        # Acquire lock if possible\n        if existingLock is None or existingLock[0] == clientID:", "        if existingLock is not None and existingLock[0] == clientID:\n            return True\n        # Acquire lock if possible\n        if existingLock is None or existingLock[0] == clientID:")),
+    brk('B-member-restore-only-on-clear', ['C10'], 'R-rollback-paired', (S, "            if clearJournal:\n                self.__raftLog.clear()\n                self.__raftLog.add(*data[2])\n                self.__raftLog.add(*data[1])\n", "            if clearJournal:\n                self.__raftLog.clear()\n                self.__raftLog.add(*data[2])\n                self.__raftLog.add(*data[1])\n                if self.__conf.dynamicMembershipChange:\n                    self.__updateClusterConfiguration([node for node in data[3] if node != self.__selfNode])\n"), (S, "            if self.__conf.dynamicMembershipChange:\n                self.__updateClusterConfiguration([node for node in data[3] if node != self.__selfNode])\n            self.__onSetCodeVersion", "            self.__onSetCodeVersion")),
     brk('B-majority-ge', ['C03'], 'R-majority', (S, 'if self.__votesCount > (len(self.__otherNodes) + 1) / 2:', 'if self.__votesCount >= (len(self.__otherNodes) + 1) / 2:')),
     brk('B-majority-no-plus1', ['C04'], 'R-majority', (S, 'if count <= (len(self.__otherNodes) + 1) / 2:\n                    break', 'if count <= len(self.__otherNodes) / 2:\n                    break')),
     brk('B-majority-observers', ['C18'], 'R-majority', (S, """                for node in self.__otherNodes:
